@@ -35,7 +35,7 @@ CHECKS = {
  "C10": ("exploration", "cross-codec monitor: independent FileInfo record parser + os.stat + hashlib.sha1; independent patch-list wire parser; Miri on a small slice (SHA-1 block view) in the thorough tier",
          "Every table/list the library writes is decoded independently and every independently built one is parsed by the library; lengths cover every SHA-1 padding boundary, sizes up to 2^62.",
          "hashlib/os.stat trusted; wire format as served by the patch servers"),
- "C11": ("exploration", "reference-model monitor: pi-derived Blowfish reference (self-checked on 16 published vectors) over recorded encrypt/decrypt calls",
+ "C11": ("exploration", "reference-model monitor: pi-derived Blowfish reference (self-checked on 16 published vectors) over recorded encrypt/decrypt calls, incl. operation histories on one object and one object shared by 4 threads (every result checked; thorough: the same under Miri's data-race detector)",
          "Every recorded encrypt/decrypt of the real library is compared with an independent Blowfish whose tables are computed from pi; any altered table word, round count, key-schedule or padding step changes essentially every ciphertext, so thousands of (key,message) pairs across key lengths 8..56 and message lengths 0..4096 give high confidence; exploration because keys/messages are unbounded.",
          "reference implementation + published vectors are trusted"),
  "C13": ("exploration", "reference-model monitor with tolerance: Python BCn/BGRA decoders written from the specification",
